@@ -17,4 +17,21 @@ prop("C13",
      runs=[dict(name="h_bounded", sources=["harness/h_bounded.c"], profile="asan",
                 args={"quick": ["--L=4"], "thorough": ["--L=9"]})],
      deadline={"quick": 120, "thorough": 1200})
+
+
+_C01_RULE = ("E1: breadth-first search over operation histories of one str/ustr object starting from every constructor; a state is a history, "
+             "deduplicated by the canonical key (text, len, capacity slack class, NULL-buffer flag); every alphabet operation is executed from "
+             "every reachable state on a fresh replayed object and compared with a byte-array reference model and invariants I1/I2; every "
+             "query is probed in every new state; stream/descriptor constructors: E2 over (source kind x length x newline position) x E3 "
+             "read() answer schedules {complete,1 byte,half,EINTR}; non-trivial = distinct reachable states + multi-chunk/newline stream cases")
+prop("C01",
+     level="model_checking",
+     technique="explicit-state BFS over operation histories on the real object (replay on fresh object, canonical-key dedup) vs reference model; deviation-bounded read() schedules for fd/fp constructors",
+     rule=_C01_RULE,
+     bounds={"quick": "sigma={a,B,space} L=3 fixpoint; fd ctor k=4 dev<=2", "thorough": "sigma={a,B,space,7} L=5 fixpoint; fd ctor k=6 dev<=2"},
+     runs=[dict(name="h_str", sources=["harness/h_str.c"], profile="asan", wraps=["read"],
+                args={"quick": ["--L=3", "--sigma=3"], "thorough": ["--L=5", "--sigma=4"]}),
+           dict(name="h_ustr", sources=["harness/h_str.c"], profile="asan", wraps=["read"], cflags=["-DUSTR"],
+                args={"quick": ["--L=3", "--sigma=3"], "thorough": ["--L=5", "--sigma=4"]})],
+     deadline={"quick": 200, "thorough": 3000})
 NOT_CLAIMED = {}
